@@ -81,6 +81,9 @@ pub struct FoundViolation {
     pub shrunk_to: usize,
     #[serde(default)]
     pub signature: String,
+    /// replay file of the plan as generated (only when minimisation changed it)
+    #[serde(default)]
+    pub replay_full: String,
 }
 
 #[derive(Clone, Debug, Default, Serialize, Deserialize)]
